@@ -1,6 +1,8 @@
 package fsm
 
 import (
+	"bytes"
+	"fmt"
 	"github.com/canopy-network/canopy/lib"
 	"github.com/canopy-network/canopy/lib/crypto"
 	"google.golang.org/protobuf/types/known/anypb"
@@ -122,6 +124,15 @@ func (s *StateMachine) CheckTx(transaction []byte, txHash string, batchVerifier 
 	// perform basic validations against the tx object
 	if err = tx.CheckBasic(); err != nil {
 		return
+	}
+	// only the canonical encoding of a transaction is accepted: the hash of the raw bytes is the
+	// transaction's identity while the signature covers the re-marshalled content
+	canonical, err := lib.Marshal(tx)
+	if err != nil {
+		return
+	}
+	if !bytes.Equal(canonical, transaction) {
+		return nil, lib.ErrUnmarshal(fmt.Errorf("non-canonical transaction encoding"))
 	}
 	if s.Metrics != nil {
 		s.Metrics.CheckTxDecodeTime.Observe(time.Since(decodeStartTime).Seconds())
